@@ -203,3 +203,17 @@ def r8(rr, repo):
 def r9(rr, repo):
     from .c04 import r1 as c04r1
     c04r1(rr, repo)
+
+
+@rule('C06.R10', "a publisher whose required output is missing waits for it - also in the very round that finds it missing: the client that is being timed out no longer counts as connected when the permission to "
+                 "send is initialised (shares C03.R6)")
+def r10(rr, repo):
+    from .c03 import r6 as c03r6
+    c03r6(rr, repo)
+
+
+@rule('C06.R11', "a consumer can tell a restarted publisher from the one it knew: after a publisher is killed without CLOSE and started again it numbers from the beginning, and an ephemeral ('?') consumer - whose "
+                 "requests never fast-forward a publisher - discards everything as older until the new count passes the old one, unless something on the wire says that this is a new incarnation (shares C01.R14)")
+def r11(rr, repo):
+    from .c01 import r14 as c01r14
+    c01r14(rr, repo)
